@@ -19,7 +19,7 @@ def run(ctx):
     rng = ctx.rng
     ctx.rule = ("pairs (and groups) of real fits that differ only in layout-stage hyperparameters (n_epochs in {0,1,11,200,500,None,list}, "
                 "learning_rate, init, n_components, min_dist/spread, repulsion_strength, negative_sample_rate), over dense / CSR / precomputed "
-                "/ supervised / forced-approximate graph paths, and after update() and after using the model in + * -: graph_ bytes "
+                "/ supervised / forced-approximate graph paths, NumPy-scalar graph parameters (float64 graph_), a RandomState-instance seed with a callable output metric, and after update() and after using the model in + * -: graph_ bytes "
                 "(data, indices, indptr) must be identical and hold no stored zero; the heap model's prediction for the layout stage is "
                 "compared with what is observed; non-trivial = the two n_epochs thresholds prune different edge sets of the layout's copy")
     ctx.assumptions += ["SciPy's copy behaviour is an input to the heap model (measured each run), not proved"]
@@ -35,7 +35,11 @@ def run(ctx):
                dict(n_epochs=[3, 9]), dict(n_epochs=11, learning_rate=0.0), dict(n_epochs=30, init="random"), dict(n_epochs=30, init="pca"),
                dict(n_epochs=11, n_components=3), dict(n_epochs=11, min_dist=0.5, spread=2.0), dict(n_epochs=11, repulsion_strength=3.0),
                dict(n_epochs=11, negative_sample_rate=2)]
-    paths = ["dense", "csr", "precomputed", "supervised", "approx"] if ctx.thorough else ["dense", "csr", "supervised"]
+    # "npfloat-params": graph-stage parameters given as NumPy scalars (a parameter grid from np.linspace), which makes graph_ float64;
+    # "rng-instance": random_state as a RandomState instance (a fresh, identically seeded one per fit), a callable output metric and the
+    # approximate neighbour search, whose random stream nothing of the layout stage may consume
+    paths = (["dense", "csr", "precomputed", "supervised", "approx", "npfloat-params", "rng-instance"] if ctx.thorough
+             else ["dense", "csr", "supervised", "npfloat-params", "rng-instance"])
     nsets = 3 if ctx.thorough else 1
     for s in range(nsets):
         n = int(rng.integers(80, 140))
@@ -46,7 +50,17 @@ def run(ctx):
             base = dict(n_neighbors=int(rng.integers(8, 16)), random_state=7)
             if path == "approx":
                 base["force_approximation_algorithm"] = True
+            if path == "npfloat-params":
+                base["set_op_mix_ratio"] = np.float64(rng.choice([0.25, 0.5, 0.75]))
+                base["local_connectivity"] = np.float64(1.0)
             chosen = layouts if ctx.thorough else [layouts[i] for i in (0, 2, 3, 5, 9, 10)]
+            Xp = X
+            if path == "rng-instance":
+                import umap.distances as UD
+                base["force_approximation_algorithm"] = True
+                base["output_metric"] = UD.euclidean_grad
+                Xp = rng.normal(size=(400, 30)).astype(np.float32)       # noise: NN-descent is inexact, so its random stream matters
+                chosen = [dict(n_epochs=11), dict(n_epochs=11, n_components=3), dict(n_epochs=30, n_components=5, init="random")]
             ref = None
             for lay in chosen:
                 kw = dict(base, **lay)
@@ -54,9 +68,11 @@ def run(ctx):
                     continue
                 case = {"path": path, "layout": {k: (v if not isinstance(v, list) else list(v)) for k, v in lay.items()},
                         "n": n, "n_neighbors": base["n_neighbors"], "data_kind": kind}
+                if path == "rng-instance":
+                    kw["random_state"] = np.random.RandomState(11)
                 try:
-                    if path == "dense" or path == "approx":
-                        m = umap.UMAP(**kw).fit(X)
+                    if path in ("dense", "approx", "npfloat-params", "rng-instance"):
+                        m = umap.UMAP(**kw).fit(Xp)
                     elif path == "csr":
                         m = umap.UMAP(**kw).fit(scipy.sparse.csr_matrix(X))
                     elif path == "precomputed":
